@@ -176,7 +176,7 @@ def gen_history(rng, tier):
         else:
             ops.append(["raw"])
     return {"layout": [(n, s if not isinstance(s, tuple) else list(s), "object" if d is object else np.dtype(d).name) for n, s, d in layout],
-            "cap": cap, "ops": ops, "obs_seed": rng.randrange(1 << 30)}
+            "cap": cap, "ops": ops, "obs_seed": rng.randrange(1 << 30), "quiet": rng.choice([0, 0, 2, 3, 5])}
 
 
 def layout_of(case):
@@ -241,6 +241,20 @@ def observe(store, layout, orng, cap_hint):
     return summary, data, query, res
 
 
+def index_container(idxs, salt):
+    """the indices an add() names, in the container types a caller may use (int32 / int64 / unsigned arrays, python list)"""
+    kind = salt % 5
+    if kind == 1:
+        return np.array(idxs, dtype=np.int64)
+    if kind == 2 and all(i >= 0 for i in idxs):
+        return np.array(idxs, dtype=np.uint32)
+    if kind == 3 and all(0 <= i < 256 for i in idxs):
+        return np.array(idxs, dtype=np.uint8)
+    if kind == 4:
+        return [int(i) for i in idxs]
+    return np.array(idxs, dtype=np.int32)
+
+
 def run_impl(case):
     """Runs the history on the real ArrayStore; returns (impl outputs, model op list)."""
     from ribs.archives import ArrayStore
@@ -256,7 +270,8 @@ def run_impl(case):
         outs.extend([summary, data, res])
 
     obs()
-    for op in case["ops"]:
+    k_op = 0
+    for op_pos, op in enumerate(case["ops"]):
         if op[0] == "add":
             _, idxs, ids, mode, tr = op
             log = []
@@ -280,7 +295,7 @@ def run_impl(case):
                     mode = "ok"
             ts = [make_transform(k, layout, log) for k in tr]
             try:
-                info = store.add(np.array(idxs, dtype=np.int32), data, {}, ts)
+                info = store.add(index_container(idxs, op_pos), data, {}, ts)
                 r = [0, []]
                 # add_info is threaded through the transforms
                 exp = {}
@@ -347,6 +362,13 @@ def run_impl(case):
             outs.append([0])
             obs(s2)
             continue
+        # some histories are "quiet": the store is only read every few operations (a cached view or a lazily refreshed field must not
+        # depend on being read after every single call)
+        k_op += 1
+        if case.get("quiet") and k_op % case["quiet"] != 0:
+            continue
+        obs()
+    if case.get("quiet"):
         obs()
     return outs, mops
 
@@ -423,7 +445,7 @@ def oracle(case):
     for k, op in enumerate(case["ops"]):
         if op[0] == "add" and op[3] == "ok":
             try:
-                store.add(np.array(op[1], dtype=np.int32), {n: enc_col(s, d, op[2]) for n, s, d in layout}, {},
+                store.add(index_container(op[1], k), {n: enc_col(s, d, op[2]) for n, s, d in layout}, {},
                           [make_transform(t, layout, []) for t in op[4]])
             except Exception as e:  # noqa
                 return "op %d: valid add raised %r" % (k, e)
@@ -477,6 +499,8 @@ def oracle(case):
                 with np.load(buf, allow_pickle=True) as z:
                     raw = {k_: z[k_] for k_ in z.files}
             store = ArrayStore.from_raw_dict(raw)
+        if case.get("quiet") and (k + 1) % case["quiet"] != 0 and k != len(case["ops"]) - 1:
+            continue      # quiet histories: the store is only read every few operations
         e = chk("after op %d %s" % (k, op[0]))
         if e:
             return e
